@@ -22,12 +22,20 @@ type tenv struct {
 	atomic bool
 }
 
+// allNodes: the nodes of a segment, the selector of a "switch" included.
+func (sg *tseg) allNodes() []*tnode {
+	if sg.Sel != nil {
+		return append([]*tnode{sg.Sel}, sg.Nodes...)
+	}
+	return sg.Nodes
+}
+
 func anyAtomic(s *tspec) bool {
 	if s.Atomic {
 		return true
 	}
 	for _, sg := range s.Segs {
-		for _, n := range sg.Nodes {
+		for _, n := range sg.allNodes() {
 			if n.Sub != nil && anyAtomic(n.Sub) {
 				return true
 			}
@@ -92,6 +100,9 @@ func toStream[O any](chunks []any, r *mon.Rand) (*schema.StreamReader[O], error)
 var typedTrace = os.Getenv("C04_TYPED_TRACE") != ""
 
 func mkLambda[I, O any](n *tnode, env *tenv) *compose.Lambda {
+	if n.Conv != "" {
+		return mkConvLambda[I, O](n, env)
+	}
 	run := func(in I) (O, error) {
 		if typedTrace {
 			fmt.Printf("TRACE %s runs on %s\n", n.Key, canon(any(in)))
@@ -339,15 +350,31 @@ func lowerGraph(g graphAPI, s *tspec, env *tenv) error {
 		case n.Pass:
 			chk(g.AddPassthroughNode(n.Key))
 		default:
-			chk(g.AddLambdaNode(n.Key, lambdaFor(n, env), nodeOpts(n)...))
+			// one real node, or the pipeline around a built-in lambda: the input key goes to the
+			// first, the output key to the last
+			rn := realNodes(n, env)
+			for i, x := range rn {
+				var opts []compose.GraphAddNodeOpt
+				if i == 0 && n.InKey != "" {
+					opts = append(opts, compose.WithInputKey(n.InKey))
+				}
+				if i == len(rn)-1 && n.OutKey != "" {
+					opts = append(opts, compose.WithOutputKey(n.OutKey))
+				}
+				chk(g.AddLambdaNode(x.key, x.l, opts...))
+				if i > 0 && first == nil {
+					chk(g.AddEdge(rn[i-1].key, x.key))
+				}
+			}
 		}
 	}
 	prev := []string{compose.START}
 	for _, sg := range s.Segs {
-		var keys []string
+		var keys, exits []string
 		for _, n := range sg.Nodes {
 			add(n)
-			keys = append(keys, n.Key)
+			keys = append(keys, entryKey(n))
+			exits = append(exits, n.Key)
 		}
 		if first != nil {
 			return first
@@ -361,8 +388,10 @@ func lowerGraph(g graphAPI, s *tspec, env *tenv) error {
 			}
 		case "branch":
 			chk(g.AddBranch(prev[0], graphBranchFor(sg, keys)))
+		default:
+			return fmt.Errorf("harness: a %q segment in a graph", sg.Kind)
 		}
-		prev = keys
+		prev = exits
 	}
 	for _, p := range prev {
 		chk(g.AddEdge(p, compose.END))
@@ -411,7 +440,17 @@ func lowerChain(c chainAPI, s *tspec, env *tenv) error {
 				}
 				c.appendGraph(g, append(opts, nodeOpts(n)...)...)
 			} else {
-				c.appendLambda(lambdaFor(n, env), nodeOpts(n)...)
+				rn := realNodes(n, env)
+				for i, x := range rn {
+					var opts []compose.GraphAddNodeOpt
+					if i == 0 && n.InKey != "" {
+						opts = append(opts, compose.WithInputKey(n.InKey))
+					}
+					if i == len(rn)-1 && n.OutKey != "" {
+						opts = append(opts, compose.WithOutputKey(n.OutKey))
+					}
+					c.appendLambda(x.l, opts...)
+				}
 			}
 		case "par":
 			p := compose.NewParallel()
@@ -471,22 +510,46 @@ func lowerWorkflow(wf workflowAPI, s *tspec, env *tenv) error {
 		}
 		wn.AddInput(prev[0], fieldMappings(m)...)
 	}
+	// addNode declares the node n (a nested program, a lambda, or the pipeline around a built-in
+	// lambda) and returns the workflow node that takes its input
+	addNode := func(n *tnode) (*compose.WorkflowNode, error) {
+		if n.Sub != nil {
+			sub := buildSpec(n.Sub, env)
+			if sub.err != nil {
+				return nil, sub.err
+			}
+			var opts []compose.GraphAddNodeOpt
+			if len(sub.opts) > 0 {
+				opts = append(opts, compose.WithGraphCompileOptions(sub.opts...))
+			}
+			return wf.AddGraphNode(n.Key, sub.g, opts...), nil
+		}
+		var entry *compose.WorkflowNode
+		rn := realNodes(n, env)
+		for i, x := range rn {
+			wn := wf.AddLambdaNode(x.key, x.l)
+			if i == 0 {
+				entry = wn
+			} else {
+				wn.AddInput(rn[i-1].key)
+			}
+		}
+		return entry, nil
+	}
 	for _, sg := range s.Segs {
+		if sg.Kind == "switch" {
+			exits, err := lowerSwitch(wf, sg, prev[0], addNode)
+			if err != nil {
+				return err
+			}
+			prev = exits
+			continue
+		}
 		var keys []string
 		for _, n := range sg.Nodes {
-			var wn *compose.WorkflowNode
-			if n.Sub != nil {
-				sub := buildSpec(n.Sub, env)
-				if sub.err != nil {
-					return sub.err
-				}
-				var opts []compose.GraphAddNodeOpt
-				if len(sub.opts) > 0 {
-					opts = append(opts, compose.WithGraphCompileOptions(sub.opts...))
-				}
-				wn = wf.AddGraphNode(n.Key, sub.g, opts...)
-			} else {
-				wn = wf.AddLambdaNode(n.Key, lambdaFor(n, env))
+			wn, err := addNode(n)
+			if err != nil {
+				return err
 			}
 			wire(wn, n.Map, n.JoinKeys)
 			keys = append(keys, n.Key)
